@@ -613,7 +613,3 @@ func (sc *SpecCtx) expiredAt(err Val) Val {
 	return Val{T: tInt64, C: []string{sc.st.expAtOf(sc.cur, tt, tv)}}
 }
 
-func modelSortSlice(st *State, fr *Frame, fn *ssa.Function, a []Val, pos token.Pos) (*Val, bool) {
-	st.e.unsupportedf("sort.Slice not modelled yet")
-	return nil, true
-}
